@@ -144,6 +144,9 @@ def rtsafe_(f, x0, bracket, settings):
                                                                 loop_body,
                                                                 (x0, dx, dxOld, F, DF, xl, xh, converged, 0))
 
+    # Without a sign change or a root at a bracket end there is nothing to converge to,
+    # even if f happens to return numbers for the nan marker above.
+    converged = converged & (rootIsBracketed | leftBracketIsSolution | rightBracketIsSolution)
     x = np.where(converged, x, np.nan)
 
     return x, SolutionInfo(converged=converged, function_calls=functionCalls,
